@@ -123,7 +123,11 @@ Aux:
 					if len(args) <= ai {
 						panic(fmt.Sprintf("Missing value for key :%s.", sym))
 					}
-					ss.Let(sym, args[ai])
+					// Keys that are not declared are allowed and ignored. They
+					// are not variables of the function.
+					if lam.hasKey(string(sym)) {
+						ss.Let(sym, args[ai])
+					}
 					ai++
 					continue
 				}
@@ -202,6 +206,24 @@ Aux:
 		}
 	}
 	return lam.BoundCall(ss, depth)
+}
+
+// hasKey returns true if name is the name of one of the &key parameters.
+func (lam *Lambda) hasKey(name string) bool {
+	keys := false
+	for _, ad := range lam.Doc.Args {
+		switch strings.ToLower(ad.Name) {
+		case AmpKey:
+			keys = true
+		case AmpAux:
+			keys = false
+		default:
+			if keys && ad.Name == name {
+				return true
+			}
+		}
+	}
+	return false
 }
 
 // BoundCall the the function with the bindings provided.
